@@ -35,6 +35,11 @@ C19_SendTruth(o) ==
 C19_Responsive(o) == \A i \in Idx(o) : o[i].k = "send" => o[i].res # "hang"
 (* C11: the built-in ping auto-reply of a builder-made client is a valid, correlated response *)
 C11_PingReply(o) == \A i \in Idx(o) : o[i].k = "pingreply" => o[i].res = "ok"
+(* a builder-made Server with the ping auto-reply and a request handler of its own: a request that is not a *)
+(* ping reaches the application's handler exactly once and nobody else answers it (C04); a request without   *)
+(* uri does not bring the server down (C02)                                                                  *)
+C04_SrvOwnHandler(o) == \A i \in Idx(o) : o[i].k = "srvown" => o[i].res = "ok"
+C02_SrvSurvives(o) == \A i \in Idx(o) : (o[i].k = "srvalive" => o[i].res = "y") /\ o[i].k # "panic"
 (* C08: nothing a server says during the handshake brings the client's process down *)
 C08_ClientNoPanic(o) == \A i \in Idx(o) : o[i].k # "panic"
 (* C08 at the level of the Client: Establish reports success only when a session was really *)
@@ -51,7 +56,8 @@ Ops(o) == << <<"C19_Recovers", C19_Recovers(o)>>, <<"C19_NoSpin", C19_NoSpin(o)>
              <<"C19_SendTruth", C19_SendTruth(o)>>, <<"C19_Closes", C19_Closes(o)>>,
              <<"C13_ClientReleases", C13_ClientReleases(o)>>, <<"C08_ClientTruthful", C08_ClientTruthful(o)>>,
              <<"C19_Responsive", C19_Responsive(o)>>, <<"C11_PingReply", C11_PingReply(o)>>,
-             <<"C08_ClientNoPanic", C08_ClientNoPanic(o)>> >>
+             <<"C08_ClientNoPanic", C08_ClientNoPanic(o)>>,
+             <<"C04_SrvOwnHandler", C04_SrvOwnHandler(o)>>, <<"C02_SrvSurvives", C02_SrvSurvives(o)>> >>
 Report(n, o) ==
   LET ops == Ops(o)
   IN \A i \in 1 .. Len(ops) : ops[i][2] \/ PrintT(<<"BAD", n, ops[i][1]>>)
